@@ -297,10 +297,11 @@ class CSSImportRule(cssrule.CSSRule):
                 # use cwd instead
                 parentHref = cssutils.helper.path2url(os.getcwd()) + '/'
 
-            fullhref = urllib.parse.urljoin(parentHref, self.href)
-
             # all possible exceptions are ignored
             try:
+                # (a malformed href, e.g. "http://[x", raises ValueError)
+                fullhref = urllib.parse.urljoin(parentHref, self.href)
+
                 # a sheet importing one of the sheets it is imported from
                 # would never stop loading
                 ancestor = self.parentStyleSheet
